@@ -55,6 +55,8 @@ M = {
  "setters update the network they belong to": ("C01 C07", "InterSystemRecurrenceNetwork.set_fixed_threshold/_recurrence_rate called after construction replaced rp_x/rp_y/crp_xy but not the adjacency: thresholds (1,1,1) then set_fixed_threshold((1.6,1.4,1.8)) gave n_links 56 vs 74 for a fresh object"),
  "ClimateNetwork.Load reads what": ("C05", "ClimateNetwork.Load raised on every input (np.load without allow_pickle on an ndarray.dump file; constructor called without threshold / link density): n.save((a.graphml, g.pkl, s.npy)); ClimateNetwork.Load(same) -> ValueError / AttributeError"),
  "GeoGrid.LoadTXT reads grids with a single": ("C05 C12", "GeoGrid(np.arange(1.), lat, lon).save_txt(f); GeoGrid.LoadTXT(f) raised TypeError: len() of unsized object"),
+ "keep their phase-selected link directions": ("C01 C09", "HilbertClimateNetwork(directed=True): the inherited regenerating setters dropped the phase-direction mask (22 links after set_threshold vs 11 for a fresh network)"),
+ "reinstall their link attribute after it was deleted": ("C01", "after del_link_attribute('inv_correlation_distance') the memoised inv_correlation_distance() did not reinstall the link attribute and correlation_distance_weighted_closeness() raised"),
  "vanishing Fourier amplitudes": ("C15", "refined_AAFT_surrogates returned NaN rows when a Fourier coefficient of the iterate was exactly zero (e.g. [1,-1,2,-2,3,-3,0,0])"),
 }
 fixed = []
@@ -76,8 +78,6 @@ known = [
  {"property": "C07", "match": r"^bounded:RecurrenceNetwork/missing/(rqa-size-consistent-with-R|setter/adjacency-is-R-without-diagonal)$", "what": "RecurrenceNetwork(missing_values=True) with a NaN state: self.N becomes the order of the reduced network while R keeps its full order (recurrence_rate() 0.625 instead of 0.4; first set_* call uses the wrong diagonal stride)"},
  {"property": "C09", "match": r"^bounded:consistency/undirected-adjacency-symmetric$", "what": "HavlinClimateNetwork(SmallTestData, max_delay=3): similarity is asymmetric (S[0,1]=4.94, S[1,0]=4.16) but the network is declared undirected"},
  {"property": "C10", "match": r"^bounded:mutual_information/binning-lagged-norm$", "what": "binned MI with tau_max > 0 normalises entropies by T instead of T - tau_max (factor 0.9 for T=60, tau_max=6); the suite pins the current values (test_mutual_information_binning), so it cannot be repaired without editing a test"},
- {"property": "C01", "match": r"^bounded:HilbertClimateNetwork\.set_(threshold|link_density|non_local)/directed-fresh-twin$", "what": "HilbertClimateNetwork(directed=True): the inherited regenerating setters drop the phase-direction mask (22 links vs 11 fresh)"},
- {"property": "C01", "match": r"^bounded:ClimateNetwork\.del_link_attribute/(derived-attribute-recomputed|cache-cleared|fresh-twin)$", "what": "after del_link_attribute('inv_correlation_distance') the cached inv_correlation_distance() does not reinstall the link attribute and correlation_distance_weighted_closeness() raises"},
  {"property": "C06", "match": r"^bounded:Surrogates\.test_threshold_significance/caller-array-unchanged$", "what": "Surrogates keeps the caller's array and test_threshold_significance normalises it in place (finding #11)"},
  {"property": "C06", "match": r"^bounded:Surrogates\.twin_surrogates/(no-interference|object-arrays-unchanged)$", "what": "Surrogates.twin_surrogates assigns self.embedding, which changes what twins() returns afterwards"},
  {"property": "C06", "match": r"^obligation:C06/MODIFIES/Surrogates\.(original_distribution|test_threshold_significance)$", "what": "Surrogates keeps the caller's array and test_threshold_significance/original_distribution normalise it in place (finding #11)"},
